@@ -1,3 +1,5 @@
 // ---- assumed specifications of std functions that vstd does not cover (trusted) ----
 pub assume_specification<T: ?Sized, A: core::alloc::Allocator>[ <Arc<T, A> as AsRef<T>>::as_ref ](a: &Arc<T, A>) -> (r: &T)
     ensures r == &**a;
+pub assume_specification[ i64::checked_neg ](x: i64) -> (r: Option<i64>)
+    ensures r == (if x == i64::MIN { None::<i64> } else { Some((-x) as i64) });
